@@ -345,10 +345,10 @@ func BubbleGoroutines(dump string) string {
 		if !strings.Contains(head, "synctest bubble") {
 			continue
 		}
-		if strings.Contains(g, "vf.(*Case).Bubble") && !strings.Contains(g, "created by") {
-			continue
-		}
-		if strings.Contains(g, "testing/synctest.Test") && strings.Contains(head, "running") {
+		// the caller of runtime.Stack (the bubble's root goroutine, inside Bubble) and the
+		// test goroutine parked in synctest.Run belong to the harness.
+		if strings.Contains(head, "[running") || strings.Contains(head, "synctest.Run") ||
+			strings.Contains(g, "\ntesting/synctest.testingSynctestTest(") {
 			continue
 		}
 		out = append(out, g)
